@@ -230,6 +230,10 @@ func (s *Sim) settle() {
 	}
 	simrt.RaceOn()
 	s.evBuf = s.W.Drain(s.evBuf)
+	// events of one step come from one goroutine, except when library
+	// goroutines the scheduler does not own (go-ldap's) wake each other: put
+	// them in a canonical order (by emitter, each emitter's own order kept)
+	sort.SliceStable(s.evBuf, func(i, j int) bool { return s.evBuf[i].Actor < s.evBuf[j].Actor })
 	for _, e := range s.evBuf {
 		s.History = append(s.History, e)
 		if s.Verbose {
@@ -346,6 +350,18 @@ func (s *Sim) Run(sc Scenario) {
 	simrt.Install(s.W)
 	s.Start = time.Now()
 	s.fragBudget = 150
+	// swarm: a few function-entry preemption points yield in this run
+	if n := len(simrt.PointNames()); n > 0 {
+		k := []int{0, 0, 0, 1, 2, 4, 8}[s.Ch.Choose(7)]
+		var ids []int
+		for i := 0; i < k; i++ {
+			ids = append(ids, s.Ch.Choose(n))
+		}
+		s.W.EnablePoints(ids)
+		if k > 0 {
+			s.Faults["preemption-points-enabled"] += k
+		}
+	}
 	sc.Setup(s)
 	for {
 		s.settle()
